@@ -327,6 +327,12 @@ func (c *Conc) Meta(m absx.M) []byte {
 		out = `perm_channels: ` + list
 	case "wrongType":
 		out = `{"perm_channels":"` + strings.ReplaceAll(list, `"`, `'`) + `"}`
+	case "trailing": // a well-formed list followed by bytes that make the whole string invalid JSON
+		if c.Seed%2 == 0 {
+			out = `{"perm_channels":` + list + `} trailing-garbage`
+		} else {
+			out = `{"perm_channels":` + list + `}{"unknown":1}`
+		}
 	case "long":
 		out = `{"perm_channels":` + list + `,"pad":"` + strings.Repeat("x", 5200) + `"}`
 	default:
